@@ -38,7 +38,7 @@ let () =
             (String.concat "," (L.map (fun n -> so (prefix_for_namespace ep xp xn z (n_of_int n))) (range nns)))
             (String.concat "" (L.map (fun p -> if is_prefix_defined xp nn xn z (n_of_int p) then "1" else "0") (range np)))
             (String.concat "," (L.map (fun (p, n) -> string_of_int p ^ ">" ^ string_of_int n) inh))
-            (String.concat "," (L.map nstr (unresolved_namespaces ep nn ns_of_name z)))
+            (String.concat "," (L.map nstr (unresolved_namespaces ep xp nn xn ns_of_name z)))
             fnm nnr) (Access.store_cursors store) in
       print_endline (case ^ " " ^ String.concat "|" obs)
     | _ -> failwith "c09: bad case line")
